@@ -349,8 +349,101 @@ pub fn main(args: &[String]) {
                     });
                 }
             });
+            // Same-storage histories: every ordered pair of *equal-layout* words, lexed one after
+            // the other out of one reused buffer, so that the second source lies at the address of
+            // the first, has its length and has its constructs at the same offsets. A cache keyed by
+            // position, address or length instead of content answers for the wrong text here. Atoms
+            // are padded to one width; words of the same atom count have the same layout. The
+            // reference for a word is its digest on a fresh thread.
+            const W: usize = 8;
+            let eq_atoms: &[&str] = &[
+                "%if", "%then", "%m(1)", "%n", "&v", "1", "a", "%put x;", "%do i=", "%to", "%eval(", ")", ";", "%let a=", "=", "*", "x=1;", "'a'",
+            ];
+            let levels = if args.iter().any(|a| a == "--deep") { 3 } else { 2 };
+            let mut words: Vec<Vec<String>> = vec![Vec::new(); levels + 1];
+            for n in 1..=levels {
+                let k = eq_atoms.len();
+                for idx in 0..k.pow(n as u32) {
+                    let mut w = String::new();
+                    let mut r = idx;
+                    for _ in 0..n {
+                        w.push_str(&format!("{:<W$}", eq_atoms[r % k]));
+                        r /= k;
+                    }
+                    words[n].push(w);
+                }
+            }
+            // three-atom words over the macro-expression atoms only (quick tier keeps the product small)
+            if levels == 2 {
+                let sub: Vec<&str> = eq_atoms.iter().copied().filter(|a| a.starts_with('%') || matches!(*a, "1" | "&v" | "a" | ";")).collect();
+                let k = sub.len();
+                let mut v = Vec::new();
+                for idx in 0..k.pow(3) {
+                    let mut w = String::new();
+                    let mut r = idx;
+                    for _ in 0..3 {
+                        w.push_str(&format!("{:<W$}", sub[r % k]));
+                        r /= k;
+                    }
+                    v.push(w);
+                }
+                words.push(v);
+            }
+            let same_pairs = AtomicU64::new(0);
+            let same_bad: Mutex<Vec<(String, String)>> = Mutex::new(Vec::new());
+            for group in words.iter().filter(|g| !g.is_empty()) {
+                let grefs: Vec<u64> = std::thread::scope(|sc| {
+                    let hs: Vec<_> = group
+                        .chunks(group.len().div_ceil(threads).max(1))
+                        .map(|ch| {
+                            sc.spawn(move || {
+                                ch.iter()
+                                    .map(|w| {
+                                        // one fresh thread per word: no history at all
+                                        std::thread::scope(|s2| s2.spawn(|| input_digest(w, strip, &mut Vec::new())).join().unwrap())
+                                    })
+                                    .collect::<Vec<u64>>()
+                            })
+                        })
+                        .collect();
+                    hs.into_iter().flat_map(|h| h.join().unwrap()).collect()
+                });
+                let next = AtomicU64::new(0);
+                std::thread::scope(|sc| {
+                    for _ in 0..threads {
+                        let (group, grefs, next, same_pairs, same_bad) = (group, &grefs, &next, &same_pairs, &same_bad);
+                        sc.spawn(move || {
+                            let mut scratch = Vec::new();
+                            let mut buf = String::with_capacity(group[0].len() + 16);
+                            loop {
+                                let i = next.fetch_add(1, Ordering::Relaxed) as usize;
+                                if i >= group.len() {
+                                    break;
+                                }
+                                for (j, y) in group.iter().enumerate() {
+                                    buf.clear();
+                                    buf.push_str(&group[i]);
+                                    let _ = input_digest(&buf, strip, &mut scratch);
+                                    buf.clear();
+                                    buf.push_str(y);
+                                    let d = input_digest(&buf, strip, &mut scratch);
+                                    same_pairs.fetch_add(1, Ordering::Relaxed);
+                                    if d != grefs[j] {
+                                        let mut b = same_bad.lock().unwrap();
+                                        if b.len() < 5 {
+                                            b.push((group[i].clone(), y.clone()));
+                                        }
+                                    }
+                                }
+                            }
+                        });
+                    }
+                });
+            }
             let doc = serde_json::json!({
                 "inputs": inputs.len(),
+                "same_storage_pairs": same_pairs.load(Ordering::Relaxed),
+                "same_storage_mismatches": same_bad.into_inner().unwrap(),
                 "contention_lexer_runs": cont_runs.load(Ordering::Relaxed),
                 "ordered_pairs": pairs,
                 "pair_mismatches": bad,
